@@ -1414,7 +1414,7 @@ Lemma bdd_to_mdd_unfold dvars order :
    let target := concat bits_in_order in
    let bit_to_sort : list (nat * nat) := imap (fun k b => (b, k)) target in
    collect_garbage None ;;;
-   reorder (Some (list_to_map bit_to_sort)) ;;;
+   reorder_pub (Some (list_to_map bit_to_sort)) ;;;
    bdd_to_mdd_tail dvars bit_to_sort order).
 Proof. reflexivity. Qed.
 
